@@ -301,6 +301,10 @@ class Range(object):
                     elif (next_type == token.OP) and (next_value == "-"):
                         after_hyphen = True
                     elif (next_type == token.OP) and (next_value == _ELLIPSIS_TOKEN_TEXT):
+                        if ellipsis_found:
+                            raise errors.InterfaceError(
+                                "each part of a range must contain at most one ellipsis (...)", location
+                            )
                         ellipsis_found = True
                     else:
                         raise errors.InterfaceError(
@@ -351,6 +355,8 @@ class Range(object):
                     self._items.append(result)
                 if _tools.is_eof_token(next_token):
                     end_reached = True
+            if not self._items:
+                raise errors.InterfaceError("range must contain at least one number or ellipsis (...)", location)
 
             self._lower_limit = None
             self._upper_limit = None
@@ -636,6 +642,10 @@ class DecimalRange(Range):
                     elif (next_type == token.OP) and (next_value == "-"):
                         after_hyphen = True
                     elif (next_type == token.OP) and (next_value == _ELLIPSIS_TOKEN_TEXT):
+                        if ellipsis_found:
+                            raise errors.InterfaceError(
+                                "each part of a range must contain at most one ellipsis (...)", location
+                            )
                         ellipsis_found = True
                     else:
                         message = (
@@ -688,6 +698,8 @@ class DecimalRange(Range):
                     self._items.append(range_item)
                 if _tools.is_eof_token(next_token):
                     end_reached = True
+            if not self._items:
+                raise errors.InterfaceError("range must contain at least one number or ellipsis (...)", location)
 
             assert self.precision >= 0
             assert self.scale >= self.precision
